@@ -123,6 +123,30 @@ def repeated_name_cases():
     return out
 
 
+def zero_array_cases():
+    """an observation that needs no arrays (instrument_demand 0): it is
+    'current' from its start to its end although array use stays 0.  Only
+    plans in which no array-using observation ends while it runs (DESIGN 9:
+    the unchanged telescope never finishes it otherwise)."""
+    from ..scopes import mkobs, mkcfg, mkcase, dag, CLUSTERS
+    out = []
+    wf = dag("chain2", [2, 1], [0])
+    for M in (1, 2):
+        for d in (1, 3):
+            plans = [[mkobs("z", 0, d, 1, 0, 1, "wa")],
+                     [mkobs("z", 1, d, 1, 0, 1, "wa"),
+                      mkobs("b", d + 3, 2, 1, 1, 1, "wa")],
+                     [mkobs("a", 0, 1, 1, 1, 1, "wa"),
+                      mkobs("z", 2, d, 1, 0, 1, "wa")]]
+            for obs in plans:
+                cfg = mkcfg(CLUSTERS[M][0], obs, (100, 10), (100, 10), 2, 2)
+                for alg in ({"kind": "queue"}, {"kind": "batch", "p": 1,
+                                                "min": 1}):
+                    out.append(("S-zero-arrays", mkcase(cfg, {"wa": wf},
+                                                        alg)))
+    return out
+
+
 def huge_buffer_cases():
     """production-sized buffers (the repository's configurations use 5e11)
     holding a few units: 'empty' must still mean exactly full free space"""
@@ -167,6 +191,7 @@ def run(rep, tier, seed):
                                "history": [list(h) for h in hist]},
                               detail, "E2-cluster-M%d" % M)
     cs = cases(tier, seed) + repeated_name_cases() + huge_buffer_cases() + \
+        zero_array_cases() + \
         common.add_algs(list(common.zero_demand_scope(
             "thorough" if tier == "thorough" else "quick")), lambda c: [{"kind": "queue"}, {"kind": "batch", "p": 1, "min": 1}],
             feasible_only=False)
